@@ -34,10 +34,11 @@ type guards struct {
 	eConcExec            int
 	capped               bool
 	dKeys                map[string]int
+	sampled              map[string]bool
 }
 
 func newGuards() *guards {
-	return &guards{okByMode: map[string]int{}, failByMode: map[string]int{}, dKeys: map[string]int{}}
+	return &guards{okByMode: map[string]int{}, failByMode: map[string]int{}, dKeys: map[string]int{}, sampled: map[string]bool{}}
 }
 
 // ===================================================================================================
@@ -229,9 +230,10 @@ func (w *world) subA(g *guards) {
 					c.Distinct("distinct", fmt.Sprintf("a|%s|%s|%s", mp, errClass(r.Side[0]), errClass(r.Side[1])))
 				}
 				c.Distinct("read_size_sequences", fmt.Sprint(r.ReadLens))
-				if len(ch.Flips) == 2 && idx%977 == 0 && ch.Flips[0][1] == 1 && ch.Flips[1][1] == 0 {
+				if !g.sampled["a"] && len(ch.Flips) == 2 && ch.Flips[0][0] != ch.Flips[1][0] && r.Side[0].OK && oc.Verify {
+					g.sampled["a"] = true
 					c.Sample(map[string]any{"sub": "a", "out": oc.String(), "in": ic.String(), "chunking": ch.String(), "read_sizes": r.ReadLens,
-						"outgoing": r.Side[0].verdict(), "incoming": r.Side[1].verdict()})
+						"outgoing": r.Side[0].verdict() + " " + r.Side[0].Att.String(), "incoming": r.Side[1].verdict() + " " + r.Side[1].Att.String()})
 				}
 			}
 		}
@@ -420,6 +422,10 @@ func (w *world) subC(g *guards) {
 					c.Violation("c:conn-operation-left-blocked", desc, rc)
 				}
 				w.judgeProof("c", sc.roleOut, ss.Real.verifier(), accts[sc.remote].peerId, r.Side, r.Received, desc, rc)
+				if !sc.control && verify && !g.sampled["c"] {
+					g.sampled["c"] = true
+					c.Sample(map[string]any{"sub": "c", "scenario": sc.name, "victim": ss.Real.String(), "verdict": r.Side.verdict()})
+				}
 				switch {
 				case sc.control && !r.Side.OK:
 					c.Violation("c:genuine-credentials-rejected:"+roleName(sc.roleOut), desc+": the recorded credentials are rejected on the very endpoints they were made for: "+r.Side.verdict(), rc)
@@ -524,7 +530,7 @@ func dKinds() (out []hkind) {
 		for _, verify := range []bool{false, true} {
 			for _, ver := range []uint32{1, 0, 3} {
 				for _, cv := range []string{"remote/7.7", ""} {
-					for _, pay := range []string{"signed", "skip", "short", "none"} {
+					for _, pay := range []string{"skip", "signed", "short", "none"} {
 						out = append(out, hkind{roleOut, verify, ver, cv, pay})
 					}
 				}
@@ -582,14 +588,19 @@ func (w *world) subD(g *guards) {
 		}
 	}
 	// histories of length 3: quick = the real side keeps its role and mode; thorough = all
+	sameReal := func(idx ...int) bool {
+		for _, i := range idx[1:] {
+			if kinds[i].RoleOut != kinds[idx[0]].RoleOut || kinds[i].Verify != kinds[idx[0]].Verify {
+				return false
+			}
+		}
+		return true
+	}
 	for a := range kinds {
 		for b := range kinds {
 			for d := range kinds {
-				if c.Quick() {
-					ka, kb, kd := kinds[a], kinds[b], kinds[d]
-					if ka.RoleOut != kb.RoleOut || kb.RoleOut != kd.RoleOut || ka.Verify != kb.Verify || kb.Verify != kd.Verify {
-						continue
-					}
+				if c.Quick() && !sameReal(a, b, d) {
+					continue
 				}
 				n++
 				if !w.mine(n) {
@@ -601,6 +612,30 @@ func (w *world) subD(g *guards) {
 					return
 				}
 				run([]int{a, b, d})
+			}
+		}
+	}
+	// thorough: histories of length 4 in which the real side keeps its role and mode
+	if c.Thorough() {
+		for a := range kinds {
+			for b := range kinds {
+				for d := range kinds {
+					for e := range kinds {
+						if !sameReal(a, b, d, e) {
+							continue
+						}
+						n++
+						if !w.mine(n) {
+							continue
+						}
+						if c.TimeUp() {
+							g.capped = true
+							c.NotExhaustive("deadline reached in sub-check (d)")
+							return
+						}
+						run([]int{a, b, d, e})
+					}
+				}
 			}
 		}
 	}
@@ -691,6 +726,10 @@ func (w *world) runHistory(g *guards, ks []hkind, freshOf func(i int) dOutcome, 
 		return
 	}
 	c.Distinct("states", "d|"+hist+"|"+strings.Join(trace, ","))
+	if !g.sampled["d"] && len(ks) == 3 && ks[0].Pay == "signed" && ks[1].Pay == "none" && ks[1].Verify {
+		g.sampled["d"] = true
+		c.Sample(map[string]any{"sub": "d", "history": names, "outcomes_on_the_single_pooled_object": trace})
+	}
 }
 
 // staleFields names the fields of the remote credentials that the checker saw with a value that is not the one
@@ -799,6 +838,10 @@ func (w *world) judgeCancel(g *guards, ps pairSpec, r *pairResult, rc any) {
 	}
 	// reference "process network with a crash": the other side can have everything it needs only if the cancelled
 	// side had written both of its frames before the abort
+	if r.Side[y].OK && !g.sampled["e1"] {
+		g.sampled["e1"] = true
+		c.Sample(map[string]any{"sub": "e1", "case": desc, "outgoing": r.Side[0].verdict(), "incoming": r.Side[1].verdict(), "frames_written_by_cancelled_side": r.CancelAt})
+	}
 	if r.Side[y].OK {
 		g.eYok++
 		if r.CancelAt < 2 {
